@@ -173,7 +173,13 @@ def gen_model(rng, tag: str) -> tuple[dict, str, list[str]]:  # noqa: ANN001
         else:
             body = ['    """doc"""', f"    return {eg.expr(params, 1)}"]
             eg.feats.add("docstring")
-        src.append(f"def {name}({', '.join(params)}):\n" + "\n".join(body) + "\n\n")
+        sig = ", ".join(params)
+        if len(params) >= 2 and rng.random() < 0.08:
+            # other shapes of a signature that call the same way: positional-only parameters (all of them, or the leading ones)
+            cut = rng.randint(1, len(params))
+            sig = ", ".join(params[:cut]) + ", /" + ("".join(", " + q for q in params[cut:]))
+            eg.feats.add("positional_only_parameters(" + ("all" if cut == len(params) else "leading") + ")")
+        src.append(f"def {name}({sig}):\n" + "\n".join(body) + "\n\n")
         return f"{mod}:{name}"
 
     nvar = rng.randint(1, 4)
